@@ -23,6 +23,8 @@ import (
 	"time"
 
 	"github.com/enbility/ship-go/api"
+	"github.com/enbility/ship-go/cert"
+	"github.com/enbility/ship-go/hub"
 	"github.com/enbility/ship-go/mdns"
 )
 
@@ -185,7 +187,49 @@ func mdnsviewMain(args []string) int {
 	// part 2: ordering
 	ford, _ := os.Create(*outOrd)
 	defer ford.Close()
+	hubCert, _ := cert.CreateCertificate("unit", "verif", "DE", "mdnsview")
 	for t := 0; t < *bursts; t++ {
+		if t%3 == 2 {
+			// the application behind the real hub: what it is shown last has to be the final set, also when the hub
+			// asks for the entries (as RegisterRemoteSKI does) in between
+			app := &recReader{}
+			m := mdns.NewMDNS("ski0", "", "", "", "", nil, "local", "svc", 1, nil, mdns.MdnsProviderSelectionGoZeroConfOnly)
+			h := hub.NewHub(app, m, freePort(), hubCert, api.NewServiceDetails("ski0"))
+			m.VerifSetProvider(&fakeProvider{}, h)
+			total := 3 + rnd.Intn(12)
+			for k := 1; k <= total; k++ {
+				ski := fmt.Sprintf("ski%d", k)
+				el := map[string]string{"txtvers": "1", "id": "id", "path": "/ship/", "ski": ski, "register": "false"}
+				m.VerifResolve(el, "svc", "host.local", []net.IP{net.ParseIP("192.168.1.10")}, 4711, false)
+				if rnd.Intn(2) == 0 {
+					m.RequestMdnsEntries()
+				}
+			}
+			lastSize := func() (int, int) {
+				n, last := 0, -1
+				for _, e := range app.snapshot() {
+					if e.kind == "visible" {
+						n++
+						fmt.Sscan(e.arg, &last)
+					}
+				}
+				return n, last
+			}
+			for i := 0; i < 300; i++ {
+				time.Sleep(10 * time.Millisecond)
+				if _, l := lastSize(); l == total && i >= 2 {
+					break
+				}
+			}
+			time.Sleep(10 * time.Millisecond)
+			n, l := lastSize()
+			v := "ok"
+			if l != total {
+				v = "BAD"
+			}
+			fmt.Fprintf(ford, "%s trial=%d events=%d delivered=%d last=%d wentback=0 sizes=[through the real hub, with requests in between]\n", v, t, total, n, l)
+			continue
+		}
 		sink := &seqSink{}
 		m := mdns.NewMDNS("ski0", "", "", "", "", nil, "local", "svc", 1, nil, mdns.MdnsProviderSelectionGoZeroConfOnly)
 		m.VerifSetProvider(&fakeProvider{}, sink)
